@@ -172,6 +172,22 @@ var deviantFlags = []struct {
 	{"stream_matcher_requires_label_present", func(r *Rules) { r.MatcherNeedsLabel = true }, func(q *Query) bool { return true }},
 	{"json_param_nested_path_uses_last_segment", func(r *Rules) { r.JSONLastSegment = true }, hasJSON},
 	{"json_param_array_index_looked_up_as_key", func(r *Rules) { r.JSONIndexAsKey = true }, hasJSON},
+	{"label_filter_sees_later_drop", func(r *Rules) { r.LaterDropVisible = true }, func(q *Query) bool {
+		sawParser, sawLabel := false, false
+		for _, s := range q.Stages {
+			switch s.Kind {
+			case "json", "regexp":
+				sawParser, sawLabel = true, false
+			case "label":
+				sawLabel = sawParser
+			case "drop":
+				if sawLabel {
+					return true
+				}
+			}
+		}
+		return false
+	}},
 	{"label_filter_before_parser_ignores_drop", func(r *Rules) { r.HoistedLabelFilter = true }, func(q *Query) bool {
 		sawDrop := false
 		for _, s := range q.Stages {
